@@ -46,7 +46,7 @@ class UArray(Array):
         return Array.run(self, cmd, *opts, **kw)
 
 
-def new_array(ctx, rng, nd=3, np_=2, ncontent=2, hashsize=None, pending=False, populate=True, splits=1, uuid=False, content_on=None):
+def new_array(ctx, rng, nd=3, np_=2, ncontent=2, hashsize=None, pending=False, populate=True, splits=1, uuid=False, content_on=None, parity_limit=None):
     """content_on = index of a data disk that also holds a content copy (the usual real layout) and an `exclude *.bak` rule"""
     root = mkscratch('arr.')
     extra = []
@@ -62,7 +62,8 @@ def new_array(ctx, rng, nd=3, np_=2, ncontent=2, hashsize=None, pending=False, p
             a.write(d, 'wholesec', rng.randbytes(1800 + 100 * di), mtime_ns=(1700003000 + di) * 10**9)
             if content_on is not None:
                 open(a.path(d, 'junk%d.bak' % di), 'wb').write(rng.randbytes(500))
-    r = a.run('sync')
+    # --test-parity-limit: the first split of every level cannot grow beyond the limit, the rest of the parity goes to the next
+    r = a.run('sync', *(['--test-parity-limit', str(parity_limit)] if parity_limit else []))
     if r.rc != 0:
         raise RuntimeError('initial sync failed: %r' % r)
     return a
@@ -375,14 +376,33 @@ def trig_parity(a, rng, lvl, variant, used):
     if variant == 'exact':                       # exactly the used size: no trigger (size of the file may exceed it)
         os.truncate(f, used * bs)
         return False
+    if variant.startswith('split'):
+        # a level made of two files, both holding parity: one of them truncated by a block, or lost and recreated empty
+        k = int(variant[5])
+        fs = a.parity_files[lvl]
+        sizes = [os.path.getsize(x) for x in fs]
+        if min(sizes) < 2 * bs:
+            raise RuntimeError('split parity not spread over both files: %s' % sizes)
+        if variant.endswith('_short'):
+            os.truncate(fs[k], sizes[k] - bs)
+        elif variant.endswith('_lost'):
+            os.unlink(fs[k])
+            open(fs[k], 'wb').close()
+        else:
+            raise KeyError(variant)
+        now = [os.path.getsize(x) for x in fs]
+        valid = now[0] if now[0] < sizes[0] else sizes[0] + min(now[1], sizes[1])
+        return valid // bs < used
     raise KeyError(variant)
 
 
 def scenario_sync_trigger(ctx, seed, kind, where, variant, pending, shape, fmt=None, uuid=False, extra=(), content_del=None, content_on=None):
-    """fmt: None (version-2 content, no recorded parity sizes) | 'hashsize8' | 'split2' (version-3 content: 'Q' records)"""
+    """fmt: None (version-2 content, no recorded parity sizes) | 'hashsize8' | 'split2' | 'split2lim' (version-3 content: 'Q'
+    records with the split sizes; split2lim: the parity of every level really spread over two files)"""
     rng = random.Random(seed)
     nd, np_, nc = shape
-    a = new_array(ctx, rng, nd=nd, np_=np_, ncontent=nc, hashsize=8 if fmt == 'hashsize8' else None, splits=2 if fmt == 'split2' else 1, uuid=uuid, content_on=content_on)
+    a = new_array(ctx, rng, nd=nd, np_=np_, ncontent=nc, hashsize=8 if fmt == 'hashsize8' else None, splits=2 if fmt in ('split2', 'split2lim') else 1, uuid=uuid, content_on=content_on,
+                  parity_limit=8192 if fmt == 'split2lim' else None)
     paths = L.Paths(a)
     desc = '%s:%s@%d%s nd=%d np=%d nc=%d%s%s' % (kind, variant, where, '+pending' if pending else '', nd, np_, nc, ' ' + fmt if fmt else '', ' uuid' if uuid else '')
     replay = {'seed': seed, 'kind': kind, 'where': where, 'variant': variant, 'pending': pending, 'shape': shape, 'content_format': fmt, 'fake_uuid': uuid}
@@ -420,13 +440,12 @@ def scenario_sync_trigger(ctx, seed, kind, where, variant, pending, shape, fmt=N
         # a wrong override must not help
         wrong = {'empty': ['--force-zero'], 'zero': ['--force-empty'], 'parity': ['--force-empty', '--force-zero']}[kind]
         if fires:
-            # with recorded split sizes (version-3 content) parity_size() reports the recorded size, not the file's
-            fk0 = 'F-C14-short-parity-undetected-with-recorded-sizes' if (kind == 'parity' and fmt) else None
-            o = run_case(ctx, a, paths, 'sync', extra, 'refuse', desc, replay, finding_key=fk0)
+            if kind == 'parity' and fmt:
+                # with recorded split sizes (version-3 content) the test must look at the files, not at the recorded sizes
+                desc += ' [REGRESSION of F-C14-short-parity-undetected-with-recorded-sizes (repaired by 03a455c) if not refused]'
+            o = run_case(ctx, a, paths, 'sync', extra, 'refuse', desc, replay)
             cross_check_scan(ctx, o, desc)
-            if fk0 and o.rc == 0:
-                r2 = a.run('check')
-                ctx.notes.add('short parity with recorded split sizes (%s): sync exit 0, parity file re-grown, following check exit %d' % (fmt, r2.rc))
+            if kind == 'parity' and fmt and o.rc == 0:
                 return
             run_case(ctx, a, paths, 'sync', wrong + extra, 'refuse', desc + ' wrong-override', replay)
             if kind != 'parity' and (ctx.tier == 'thorough' or seed % 3 == 0 or uuid or variant.startswith('removed_plus')):
@@ -955,6 +974,12 @@ def main(tier, replay=None):
             sh = shape(k)
             for where in (range(sh[1]) if thorough else [rng.randrange(sh[1])]):
                 jobs.append((scenario_sync_trigger, (rng.getrandbits(30), 'parity', where, variant, bool(k % 2), sh, fmt)))
+            k += 1
+    # (c''') a level really spread over two files: a first or a NON-first split truncated, one split lost and recreated empty
+    for variant in ['split0_short', 'split1_short', 'split0_lost', 'split1_lost']:
+        for sh in ([(3, 2, 2)] if not thorough else [(3, 2, 2), (2, 1, 1), (3, 3, 1)]):
+            for where in (range(sh[1]) if thorough else [rng.randrange(sh[1])]):
+                jobs.append((scenario_sync_trigger, (rng.getrandbits(30), 'parity', where, variant, bool(k % 2), sh, 'split2lim')))
             k += 1
     # (d) (e) configuration
     for kind in ['blocksize', 'hashsize_recorded', 'hashsize_default', 'disk_removed', 'disk_renamed']:
